@@ -4,6 +4,7 @@ import NutsModel.C04.Limiter
 import NutsModel.C04.Uuid
 import NutsModel.C04.Config
 import NutsModel.C04.SshKey
+import NutsModel.C04.Headers
 import NutsModel.Facts.C04
 open Lean Nuts.Drv Nuts.C04 Nuts
 
@@ -96,7 +97,15 @@ def respOfL (st : St) (eng : String) (j : Json) : String × Nat :=
         | .ok (.obj kv) => kv.toList.map (fun (kv : String × Json) => (unhexStr kv.1, kv.2.getBool?.toOption.getD false))
         | _ => ([] : List (Str × Bool))
       let authOK := fun (a : Str) => match authMap.find? (·.1 = a) with | some (_, v) => v | none => false
-      let tok := tokenDecision Facts.C04.policy e.aud st.keys st.now (bytesOf (jStr j "hdr")) (parseAnalysis (jObj j "tok"))
+      -- header-block ops carry the header lines as written; the model finds the Authorization value itself (Headers.lean) and
+      -- looks the libraries' verdict on THAT value up (a value nobody analysed is not a token: nothing parses)
+      let analysisOf := fun (v : Str) =>
+        match (jArr j "cands").find? (fun c => unhexStr (jStr c "v") = v) with
+        | some c => parseAnalysis (jObj c "tok")
+        | none => ({ parses := false, sigs := [], verifies := [], claims := parseClaims Json.null } : Analysis)
+      let tok := if jHas j "hb" then
+          headerDecision Facts.C04.policy e.aud st.keys st.now ((jStrs j "hb").map unhexStr) analysisOf
+        else tokenDecision Facts.C04.policy e.aud st.keys st.now (bytesOf (jStr j "hdr")) (parseAnalysis (jObj j "tok"))
       let out := serveConnL authOK Facts.C04.authSelector Facts.C04.authPath e.auth { on := e.lim, tbl := Facts.C04.limiterTable }
         regsHere tok (jStr j "m") (unhexStr (jStr j "t")) b
       (showResp out.1, out.2)
